@@ -1041,6 +1041,11 @@ func DecodeCashAddress(str string) (string, []byte, error) {
 		values[i] = byte(CharsetRev[c])
 	}
 
+	// The data part must at least hold the 8 checksum symbols.
+	if len(values) < 8 {
+		return "", nil, errors.New("address data is too short")
+	}
+
 	// Verify the checksum.
 	if !verifyChecksum(prefix, values) {
 		return "", nil, ErrChecksumMismatch
